@@ -293,6 +293,12 @@ type hist struct {
 	seen   int
 	warm   map[string]bool
 	second bool // copy targets are mapped onto a second Badger store
+	// noCfg: copies are requested without repeating the source's settings (the copy takes its properties from the source)
+	noCfg bool
+	// rechecks re-read every copy made and compare it with the source again (run after a restart of the server)
+	rechecks []func() error
+	// tombThenData[v] = number of keys deleted exactly at v that are written again under a higher version id (latest source examined)
+	tombThenData map[string]int
 }
 
 func (x *hist) pullOps() {
@@ -601,6 +607,21 @@ func (x *hist) conflictedVersions(inst string) (map[string]bool, error) {
 		}
 	}
 	x.c.Count("raw_entries_listed", len(ents))
+	// versions that store a tombstone for a key that also has a value stored under a higher version id: where a full
+	// copy is requested must not matter, and these are the versions at which "the requested version" and "the version of
+	// the pair being transmitted" differ in the most ways
+	maxData := map[string]uint32{}
+	for _, e := range ents {
+		if !e.Tomb && e.V > maxData[e.TK] {
+			maxData[e.TK] = e.V
+		}
+	}
+	x.tombThenData = map[string]int{}
+	for _, e := range ents {
+		if u, ok := vid[e.V]; ok && e.Tomb && maxData[e.TK] > e.V {
+			x.tombThenData[u]++
+		}
+	}
 	out := map[string]bool{}
 	for _, v := range x.h.D.Order {
 		for _, d := range m.Data() {
@@ -669,37 +690,81 @@ func (x *hist) checkSource(s *src, flattenAt []string) error {
 		return len(compare(s.Eps, before[v], empty[v], true)) > 0
 	}
 
-	// --- full copy
-	dst := s.Name + "-full"
-	cerr, err := x.copyInstance(x.h.Root, s.Name, dst, s.CopyCfg)
-	if err != nil {
-		return err
+	copyCfg := s.CopyCfg
+	if x.noCfg {
+		copyCfg = nil
 	}
-	x.c.Count("full_copies_"+s.Type, 1)
-	if strings.HasPrefix(cerr, "PANIC") {
-		x.viol("c19:"+s.Type+":CopyInstance-panics", fmt.Sprintf("full copy of %s instance %q: %s", s.Type, s.Name, drv.Trunc(cerr, 1200)), map[string]interface{}{"type": s.Type, "stack": cerr})
-	} else if cerr != "" {
-		x.viol("c19:full:"+s.Type+":copy-error", fmt.Sprintf("full copy of %s instance %q failed: %s", s.Type, s.Name, cerr), map[string]interface{}{"type": s.Type})
-	} else {
-		x.c.Count("full_copies_completed_"+s.Type, 1)
-		x.noteStore(dst)
-		got, err := x.snapAll(dst, s.Eps, vs)
+	// --- full copies: requested at the root (target name <src>-full, the one the second-store histories map) and at up
+	// to two other versions (a full copy transmits every version whatever uuid the command names; what it names must not matter)
+	fullAt := []string{x.h.Root}
+	if !x.second {
+		perm := x.r.Perm(len(vs))
+		sort.SliceStable(perm, func(a, b int) bool { return x.tombThenData[vs[perm[a]]] > x.tombThenData[vs[perm[b]]] })
+		for _, i := range perm {
+			if len(fullAt) >= 3 {
+				break
+			}
+			if vs[i] != x.h.Root {
+				fullAt = append(fullAt, vs[i])
+				if x.tombThenData[vs[i]] > 0 {
+					x.c.Count("full_copies_requested_at_version_with_own_deletions_rewritten_later", 1)
+				}
+			}
+		}
+	}
+	for fi, at := range fullAt {
+		dst := s.Name + "-full"
+		if fi > 0 {
+			dst = s.Name + "-full-at-" + short(at)
+		}
+		cerr, err := x.copyInstance(at, s.Name, dst, copyCfg)
 		if err != nil {
 			return err
 		}
-		for _, v := range vs {
-			x.c.Case(caseKey+"|full|"+short(v), nontrivial(v))
-			if bad := compare(s.Eps, got[v], before[v], false); len(bad) > 0 {
-				x.viol("c19:full:"+s.Type+":differs", fmt.Sprintf("full copy of %s instance %q: reads of the copy at %s differ from the source: %s", s.Type, s.Name, short(v), strings.Join(bad, " | ")),
-					map[string]interface{}{"type": s.Type, "version": short(v), "differences": bad, "bodies": x.bodies(s.Eps, bad, dst, v, s.Name, v)})
+		x.c.Count("full_copies_"+s.Type, 1)
+		if fi > 0 {
+			x.c.Count("full_copies_requested_at_non_root_version", 1)
+		}
+		if strings.HasPrefix(cerr, "PANIC") {
+			x.viol("c19:"+s.Type+":CopyInstance-panics", fmt.Sprintf("full copy of %s instance %q: %s", s.Type, s.Name, drv.Trunc(cerr, 1200)), map[string]interface{}{"type": s.Type, "stack": cerr})
+		} else if cerr != "" {
+			x.viol("c19:full:"+s.Type+":copy-error", fmt.Sprintf("full copy of %s instance %q failed: %s", s.Type, s.Name, cerr), map[string]interface{}{"type": s.Type})
+		} else {
+			x.c.Count("full_copies_completed_"+s.Type, 1)
+			x.noteStore(dst)
+			got, err := x.snapAll(dst, s.Eps, vs)
+			if err != nil {
+				return err
 			}
+			for _, v := range vs {
+				x.c.Case(caseKey+"|full@"+short(at)+"|"+short(v), nontrivial(v))
+				if bad := compare(s.Eps, got[v], before[v], false); len(bad) > 0 {
+					x.viol("c19:full:"+s.Type+":differs", fmt.Sprintf("full copy of %s instance %q requested at %s: reads of the copy at %s differ from the source: %s", s.Type, s.Name, short(at), short(v), strings.Join(bad, " | ")),
+						map[string]interface{}{"type": s.Type, "requested_at": short(at), "version": short(v), "differences": bad, "bodies": x.bodies(s.Eps, bad, dst, v, s.Name, v)})
+				}
+			}
+			dstName, atName := dst, short(at)
+			x.rechecks = append(x.rechecks, func() error {
+				again, err := x.snapAll(dstName, s.Eps, vs)
+				if err != nil {
+					return err
+				}
+				for _, v := range vs {
+					x.c.Case(caseKey+"|full@"+atName+"|after-restart|"+short(v), nontrivial(v))
+					if bad := compare(s.Eps, again[v], before[v], false); len(bad) > 0 {
+						x.viol("c19:full:"+s.Type+":differs-after-restart", fmt.Sprintf("full copy of %s instance %q (requested at %s, settings %v): after a restart of the server reads of the copy at %s differ from the source: %s", s.Type, s.Name, atName, copyCfg, short(v), strings.Join(bad, " | ")),
+							map[string]interface{}{"type": s.Type, "version": short(v), "differences": bad})
+					}
+				}
+				return nil
+			})
 		}
 	}
 
 	// --- flattened copies
 	for _, V := range flattenAt {
 		dst := fmt.Sprintf("%s-flat-%s", s.Name, short(V))
-		cerr, err := x.copyInstance(V, s.Name, dst, append([]string{"transmit=flatten"}, s.CopyCfg...))
+		cerr, err := x.copyInstance(V, s.Name, dst, append([]string{"transmit=flatten"}, copyCfg...))
 		if err != nil {
 			return err
 		}
@@ -724,28 +789,36 @@ func (x *hist) checkSource(s *src, flattenAt []string) error {
 		}
 		x.c.Count("flattened_copies_compared_"+s.Type, 1)
 		x.noteStore(dst)
-		got, err := x.snapAll(dst, s.Eps, vs)
-		if err != nil {
+		V, dst := V, dst
+		desc := descendants(x.h.D, V)
+		cmpFlat := func(phase, ksuffix string) error {
+			got, err := x.snapAll(dst, s.Eps, vs)
+			if err != nil {
+				return err
+			}
+			for _, w := range vs {
+				x.c.Case(caseKey+"|flat|"+short(V)+"|"+short(w)+phase, nontrivial(V))
+				if desc[w] {
+					if bad := compare(s.Eps, got[w], before[V], false); len(bad) > 0 {
+						rel := "a descendant of"
+						k := "descendant"
+						if w == V {
+							rel, k = "", "at-V"
+						}
+						x.viol("c19:flatten:"+s.Type+":differs:"+k+ksuffix, fmt.Sprintf("copy of %s instance %q flattened at %s (settings %v)%s: reads of the copy at %s (%s %s) differ from the source as seen from %s: %s", s.Type, s.Name, short(V), copyCfg, phase, short(w), rel, short(V), short(V), strings.Join(bad, " | ")),
+							map[string]interface{}{"type": s.Type, "flattened_at": short(V), "read_at": short(w), "differences": bad, "bodies": x.bodies(s.Eps, bad, dst, w, s.Name, V)})
+					}
+				} else if bad := compare(s.Eps, got[w], empty[w], true); len(bad) > 0 {
+					x.viol("c19:flatten:"+s.Type+":leaks-outside-descendants"+ksuffix, fmt.Sprintf("copy of %s instance %q flattened at %s%s: reads of the copy at %s (neither %s nor a descendant) differ from a never-written instance: %s", s.Type, s.Name, short(V), phase, short(w), short(V), strings.Join(bad, " | ")),
+						map[string]interface{}{"type": s.Type, "flattened_at": short(V), "read_at": short(w), "differences": bad, "bodies": x.bodies(s.Eps, bad, dst, w, s.Empty, w)})
+				}
+			}
+			return nil
+		}
+		if err := cmpFlat("", ""); err != nil {
 			return err
 		}
-		desc := descendants(x.h.D, V)
-		for _, w := range vs {
-			x.c.Case(caseKey+"|flat|"+short(V)+"|"+short(w), nontrivial(V))
-			if desc[w] {
-				if bad := compare(s.Eps, got[w], before[V], false); len(bad) > 0 {
-					rel := "a descendant of"
-					k := "descendant"
-					if w == V {
-						rel, k = "", "at-V"
-					}
-					x.viol("c19:flatten:"+s.Type+":differs:"+k, fmt.Sprintf("copy of %s instance %q flattened at %s: reads of the copy at %s (%s %s) differ from the source as seen from %s: %s", s.Type, s.Name, short(V), short(w), rel, short(V), short(V), strings.Join(bad, " | ")),
-						map[string]interface{}{"type": s.Type, "flattened_at": short(V), "read_at": short(w), "differences": bad, "bodies": x.bodies(s.Eps, bad, dst, w, s.Name, V)})
-				}
-			} else if bad := compare(s.Eps, got[w], empty[w], true); len(bad) > 0 {
-				x.viol("c19:flatten:"+s.Type+":leaks-outside-descendants", fmt.Sprintf("copy of %s instance %q flattened at %s: reads of the copy at %s (neither %s nor a descendant) differ from a never-written instance: %s", s.Type, s.Name, short(V), short(w), short(V), strings.Join(bad, " | ")),
-					map[string]interface{}{"type": s.Type, "flattened_at": short(V), "read_at": short(w), "differences": bad, "bodies": x.bodies(s.Eps, bad, dst, w, s.Empty, w)})
-			}
-		}
+		x.rechecks = append(x.rechecks, func() error { return cmpFlat(" after a restart of the server", ":after-restart") })
 	}
 
 	// --- source unchanged
@@ -765,7 +838,7 @@ func (x *hist) checkSource(s *src, flattenAt []string) error {
 
 // runHistory drives one history on *wp.  beforeCopies (optional) runs after the writes and before the copies; it may
 // replace *wp (restart with another configuration).
-func runHistory(c *drv.Ctx, wp **drv.Worker, r *rand.Rand, tag string, nops int, types []string, maxFlatten int, beforeCopies func(x *hist, flat []string) error) error {
+func runHistory(c *drv.Ctx, wp **drv.Worker, r *rand.Rand, tag string, nops int, types []string, maxFlatten int, beforeCopies func(x *hist, flat []string) error, restart func() (*drv.Worker, error), noCfg bool) error {
 	w := *wp
 	cl := &dvc.Client{W: w}
 	h, err := dvc.NewHist(cl, r, tag)
@@ -773,7 +846,7 @@ func runHistory(c *drv.Ctx, wp **drv.Worker, r *rand.Rand, tag string, nops int,
 		return err
 	}
 	h.MaxPar = 3
-	x := &hist{c: c, w: w, r: r, tag: tag, h: h, warm: map[string]bool{}}
+	x := &hist{c: c, w: w, r: r, tag: tag, h: h, warm: map[string]bool{}, noCfg: noCfg}
 	mk := func(typ, name string, cfg map[string]string, copyCfg []string) error {
 		s := &src{Type: typ, Name: name, Cfg: cfg, CopyCfg: copyCfg, Empty: name + "-empty", Eps: endpointsFor(typ)}
 		if err := cl.NewInstance(h.Root, typ, s.Name, cfg); err != nil {
@@ -872,8 +945,30 @@ func runHistory(c *drv.Ctx, wp **drv.Worker, r *rand.Rand, tag string, nops int,
 			return err
 		}
 	}
+	if restart != nil {
+		// the copies must still equal the source once the server has been restarted: what a copy is may not live in memory only
+		if err := x.w.Settle(); err != nil {
+			return err
+		}
+		nw, err := restart()
+		if err != nil {
+			x.viol("c19:restart-after-copies-fails", fmt.Sprintf("the server does not start after the copies of history %s: %v", tag, err), nil)
+			return nil
+		}
+		*wp = nw
+		x.w = nw
+		h.C.W = nw
+		x.warm = map[string]bool{}
+		c.Count("restarts_after_copies", 1)
+		for _, f := range x.rechecks {
+			if err := f(); err != nil {
+				return err
+			}
+		}
+	}
 	x.pullOps()
 	c.Seen("dag_shapes", h.D.Shape())
+	c.Seen("copy_settings", fmt.Sprintf("source-settings-repeated=%v", !noCfg))
 	c.Count("histories", 1)
 	c.Count("versions", len(h.D.Order))
 	if c.SeenCount("dag_shapes") <= 2 {
@@ -923,7 +1018,7 @@ func secondStoreHistory(c *drv.Ctx, bin string, i int, seed int64, types []strin
 		x.c.Count("second_store_histories", 1)
 		return nil
 	}
-	if err := runHistory(c, &w, rr, name, 60+rr.Intn(30), types, 4, hook); err != nil {
+	if err := runHistory(c, &w, rr, name, 60+rr.Intn(30), types, 4, hook, nil, false); err != nil {
 		return fmt.Errorf("%v; stderr: %s", err, drv.Trunc(drv.FatalInStderr(w.Stderr()), 1500))
 	}
 	return nil
@@ -980,7 +1075,21 @@ func run(c *drv.Ctx) error {
 			defer func() { w.Kill() }()
 			for i := range hch {
 				rr := rand.New(rand.NewSource(seeds[i]))
-				if err := runHistory(c, &w, rr, fmt.Sprintf("h%d", i), 90+rr.Intn(50), types, maxFlat, nil); err != nil {
+				var restart func() (*drv.Worker, error)
+				if i%2 == 1 {
+					clean := rr.Intn(2) == 0
+					restart = func() (*drv.Worker, error) {
+						if clean {
+							if err := w.Exit("clean"); err != nil {
+								return nil, err
+							}
+						} else {
+							w.Kill()
+						}
+						return drv.StartWorker(bin, dir, drv.StartOpts{})
+					}
+				}
+				if err := runHistory(c, &w, rr, fmt.Sprintf("h%d", i), 90+rr.Intn(50), types, maxFlat, nil, restart, i%4 >= 2); err != nil {
 					errs <- fmt.Errorf("worker %d history %d: %v; stderr: %s", wi, i, err, drv.Trunc(drv.FatalInStderr(w.Stderr()), 1500))
 					return
 				}
